@@ -29,7 +29,7 @@ ASSUMPTIONS = ["values are literals (lambdas, partials and `same = orig` re-bind
                "dataclasses and enums are C18's subject (the runtime rewrites their members)", "imports are intra-package only (external targets are not loaded, 'same final target' is undecidable there)"]
 MANIFEST = {
     "category": "exploration",
-    "text": "Bounded exhaustive enumeration of executable modules (<= 3 quick / <= 4 thorough constructs from a 37-entry menu) inside a three-module package under three __init__ variants (empty, re-exporting, binding its submodules as module objects), loaded by the visitor and by the inspector from the same files; skeletons compared modulo the exemptions the property lists; a nested-packages family compares every module of a package three levels deep.",
+    "text": "Bounded exhaustive enumeration of executable modules (<= 3 quick / <= 4 thorough constructs from a 37-entry menu) inside a three-module package under three __init__ variants (empty, re-exporting, binding its submodules as module objects), loaded by the visitor and by the inspector from the same files; skeletons compared modulo the exemptions the property lists; a nested-packages family compares every module of a package three levels deep. The menu includes definitions inside match / try / with / for / while clauses and functions under functools.wraps decorators.",
     "note": "Complete for the construct menu and selection size; the exemption list is applied exactly as written in the property.",
     "technique": "model checking by exhaustive small-scope enumeration of executable modules with differential comparison of the two analysis agents",
 }
